@@ -51,7 +51,7 @@ func (c cell) String() string {
 }
 
 func mkConfig(w wl.Workload, chunk int, seed uint64) prog.Config {
-	m := drpcmanager.Options{WriterBufferSize: w.Wbuf, Stream: drpcstream.Options{SplitSize: 1024}}
+	m := drpcmanager.Options{WriterBufferSize: w.Wbuf, Stream: drpcstream.Options{SplitSize: 1024, ManualFlush: wl.Manual(w.Name)}}
 	mk := func(i uint64) simnet.Chunker {
 		switch chunk {
 		case 1:
